@@ -313,6 +313,29 @@ func gen(tier string, rng *h.Rng, emit0 func(string)) {
 	}
 	emit("rid eof")
 	emit("rid big")
+	// reply packets against the table of pending requests: duplicate reply, nonce never issued, reply
+	// before any request, reply after the requester gave up, out-of-order replies
+	hon("disp q;r0")
+	for _, l := range []string{"disp r0", "disp r3735928559", "disp q;r0;r0", "disp q;r1", "disp q;q;r1;r0;r1;r0", "disp q;c0;r0;r0",
+		"disp r18446744073709551615;q;r18446744073709551615;r0", "disp q;q;q;c1;r2;r1;r0;r3", "disp q;r0;q;r0;r1"} {
+		emit(l)
+	}
+	for i := 0; i < scale(20, 300); i++ {
+		var evs []string
+		sent := 0
+		for k := 1 + rng.Intn(8); k > 0; k-- {
+			switch rng.Intn(5) {
+			case 0, 1:
+				evs = append(evs, "q")
+				sent++
+			case 2:
+				evs = append(evs, fmt.Sprintf("c%d", rng.Intn(sent+1)))
+			default:
+				evs = append(evs, fmt.Sprintf("r%d", []int{rng.Intn(sent + 2), rng.Intn(sent + 2), 7, 4294967296}[rng.Intn(4)]))
+			}
+		}
+		emit("disp " + strings.Join(evs, ";"))
+	}
 	for _, m := range []string{"nil", "sub", "unsub"} {
 		emit("mdisp " + m)
 	}
